@@ -372,7 +372,7 @@ class Gen:
         """emit a value of type t (well typed, every identifier in scope); records uses"""
         r = self.r
         forms = []
-        if depth < 3 and not top_arg and t[0] in ("int", "string", "bit"):
+        if depth < 3 and (t[0] in ("int", "string", "bit") or (t[0] == "list" and t[1][0] in ("int", "string"))):
             forms += ["cond"]
         ids = self.idents_of(t)
         if ids:
@@ -547,7 +547,8 @@ class Gen:
             else:
                 self.foldl(INT, d, call)
         elif k == "string":
-            c = r.choice(["strconcat", "paste", "subst", "substr", "interleave", "case", "cast", "repr", "head"])
+            c = r.choice(["strconcat", "paste", "subst", "substr", "interleave", "case", "cast", "repr", "head",
+                          "getdagname"])
             if c == "strconcat":
                 call("!strconcat", [V(STRING) for _ in range(r.choice([2, 3]))])
             elif c == "paste":
@@ -561,14 +562,15 @@ class Gen:
                 call("!substr", [V(STRING), V(INT)] + ([V(INT)] if r.random() < 0.5 else []))
             elif c == "interleave":
                 # the element type must be inferable for the indexer (an !foreach with an untyped body is not)
-                it = r.choice([STRING, INT])
-                call("!interleave", [lambda: self.literal(LIST(it), 2), V(STRING)])
+                call("!interleave", [V(LIST(r.choice([STRING, INT]))), V(STRING)])
             elif c == "case":
                 call(r.choice(["!tolower", "!toupper"]), [V(STRING)])
             elif c == "cast":
                 call("!cast", [V(INT)], annot=STRING)
             elif c == "repr":
                 call("!repr", [V(r.choice([INT, STRING]))])
+            elif c == "getdagname":
+                call("!getdagname", [V(DAG), V(INT)])
             else:
                 call("!head", [V(LIST(STRING))])
         elif k == "bit":
@@ -1594,3 +1596,59 @@ def known_if_siblings(rng, k):
             body = "def U { list<%s> l = !listremove([%s, %s], [%s]); }" % (a, b, c, c)
         out.append({"shape": shape, "files": {"/w/main.td": pre + body + "\n"}, "root": "/w/main.td"})
     return out
+
+
+# ---------------------------------------------------------------------------------------------------------
+# operands whose type the indexer cannot infer (a variable initialised with !cond): every bang operator, every
+# operand position.  Well-formed programs: no diagnostic (C13 sound), and the variable of !filter / !foreach /
+# !foldl used in the body resolves (C05).  (Regression family of D27, D30, D32, D33.)
+_OPS = [('!add', ['1', '2'], 'int'), ('!and', ['1', '2'], 'int'), ('!mul', ['1', '2'], 'int'), ('!or', ['1', '2'], 'int'),
+        ('!xor', ['1', '2'], 'int'), ('!div', ['4', '2'], 'int'), ('!sub', ['4', '2'], 'int'), ('!srl', ['4', '2'], 'int'),
+        ('!sra', ['4', '2'], 'int'), ('!shl', ['4', '2'], 'int'), ('!cast<string>', ['1'], 'string'),
+        ('!con', ['(op 1)', '(op 2)'], 'dag'), ('!dag', ['op', '[1, 2]', '["a", "b"]'], 'dag'), ('!empty', ['[1]'], 'bit'),
+        ('!eq', ['1', '2'], 'bit'), ('!ne', ['"a"', '"b"'], 'bit'), ('!exists<C>', ['"dd"'], 'bit'),
+        ('!find', ['"abc"', '"b"', '0'], 'int'), ('!ge', ['1', '2'], 'bit'), ('!gt', ['1', '2'], 'bit'),
+        ('!le', ['1', '2'], 'bit'), ('!lt', ['1', '2'], 'bit'), ('!getdagarg<int>', ['(op 1)', '0'], 'int'),
+        ('!getdagname', ['(op 1:$a)', '0'], 'string'), ('!getdagop<C>', ['(dd 1)'], 'C'), ('!head', ['[1, 2]'], 'int'),
+        ('!if', ['1', '2', '3'], 'int'), ('!initialized', ['1'], 'bit'), ('!interleave', ['[1, 2]', '","'], 'string'),
+        ('!isa<C>', ['dd'], 'bit'), ('!listconcat', ['[1]', '[2]'], 'list<int>'),
+        ('!listflatten', ['[[1], [2]]'], 'list<int>'), ('!listremove', ['[1, 2]', '[2]'], 'list<int>'),
+        ('!listsplat', ['1', '3'], 'list<int>'), ('!logtwo', ['8'], 'int'), ('!not', ['1'], 'bit'),
+        ('!range', ['1', '4', '1'], 'list<int>'), ('!repr', ['1'], 'string'), ('!setdagarg', ['(op 1)', '0', '2'], 'dag'),
+        ('!setdagname', ['(op 1)', '0', '"n"'], 'dag'), ('!setdagop', ['(op 1)', 'dd'], 'dag'), ('!size', ['[1, 2]'], 'int'),
+        ('!strconcat', ['"a"', '"b"'], 'string'), ('!subst', ['"a"', '"b"', '"abc"'], 'string'),
+        ('!substr', ['"abc"', '1', '1'], 'string'), ('!tail', ['[1, 2]'], 'list<int>'), ('!tolower', ['"A"'], 'string'),
+        ('!toupper', ['"a"'], 'string'), ('!filter', ['x', '[1, 2]', '!gt(x, 1)'], 'list<int>'),
+        ('!foreach', ['x', '[1, 2]', '!add(x, 1)'], 'list<int>'), ('!foldl', ['0', '[1, 2]', 'acc', 'x', '!add(acc, x)'], 'int')]
+
+
+def unknown_operand_cases():
+    pre0 = 'class C { int q = 1; }\ndef dd : C;\ndef op;\n'
+    cases = []
+    for op, ops, rt in _OPS:
+        for k, o in enumerate(ops):
+            if o in ('x', 'acc') or (op in ('!filter', '!foreach') and k == 2) or (op == '!foldl' and k == 4):
+                continue
+            variants = [('v', o)]
+            if o.startswith('['):
+                elem = o[1:-1].split(', ')[0] if not o.startswith('[[') else o[1:-1].split('], ')[0] + ']'
+                variants.append(('[v]', elem))
+            for how, init in variants:
+                text = pre0 + 'defvar v = !cond(1: %s, true: %s);\n' % (init, init)
+                new = ops[:k] + [how] + ops[k + 1:]
+                call = '%s(%s)' % (op, ', '.join(new))
+                body = 'def U { %s r = %s; }\n' % (rt, call)
+                uses = []
+                if op in ('!filter', '!foreach', '!foldl'):
+                    base = len(text) + body.index(call)
+                    decl = base + call.index('x')
+                    inner = call.rindex('!gt(x') if op == '!filter' else (call.rindex('!add(x') if op == '!foreach' else call.rindex('!add(acc'))
+                    use = base + call.index('x', inner + 4)
+                    uses.append((use, use + 1, decl, decl + 1))
+                cases.append({"op": op, "operand": k, "how": how, "files": {"/w/main.td": text + body},
+                              "root": "/w/main.td", "uses": uses})
+    cases.append({"op": ".field", "operand": 0, "how": "v", "root": "/w/main.td", "uses": [],
+                  "files": {"/w/main.td": pre0 + 'defvar v = !cond(1: dd, true: dd);\ndef U { int r = v.q; }\n'}})
+    cases.append({"op": "[i]", "operand": 0, "how": "v", "root": "/w/main.td", "uses": [],
+                  "files": {"/w/main.td": pre0 + 'defvar v = !cond(1: [1], true: [2]);\ndef U { int r = v[0]; }\n'}})
+    return cases
